@@ -128,6 +128,21 @@ def check_conversions(case):
             raise Violation("to_hex produced %r, not 64 lower-case hex characters" % (val,), bucket="hex spelling")
         if rep == "o":
             C.checkformat_key(val)
+    # the same 32 bytes / hex used with the OTHER key class right afterwards (any 32 bytes are a valid seed and a
+    # loadable raw public key): each class must hand back its own kind of object with exactly these bytes
+    other = C.PublicKey if private else C.PrivateKey
+    for conv, arg in ((other.from_hex, start.hex()), (other.from_bytes, start), (cls.from_hex, start.hex())):
+        k = _lib(conv, arg)
+        owner = other if conv.__self__ is other else cls
+        want_private = owner is C.PrivateKey
+        is_private = hasattr(k, "sign")
+        if is_private != want_private:
+            raise Violation("%s.%s returned a %s key object after the same value had been loaded with the other class"
+                            % (owner.__name__, conv.__name__, "private" if is_private else "public"),
+                            bucket="wrong key class returned")
+        if _lib(owner.to_bytes, k) != start:
+            raise Violation("%s round trip changed the value when the same hex is used for both key classes" % owner.__name__,
+                            bucket="conversion changes value")
     return {"nontrivial": steps >= 3, "labels": ["private" if private else "public", "steps=%d" % min(steps, 6)]}
 
 
@@ -172,6 +187,11 @@ def check_keyfiles(case):
     try:
         if case["how"] == "library":
             name = os.path.join(d, "k")
+            pre = case.get("pre", 0) % 4
+            if pre:       # key files from an earlier run already exist under that name (longer, shorter or same size)
+                for ext, n in ((".pri", [0, 65, 20, 32][pre]), (".pub", [0, 33, 64, 32][pre])):
+                    with open(name + ext, "wb") as f:
+                        f.write(b"o" * n)
             priv, pub = MC.gen_and_write_keys(name)
             seed = C.PrivateKey.to_bytes(priv)
             if C.PublicKey.to_bytes(pub) != R4.public_key(seed):
@@ -211,8 +231,12 @@ def check_keyfiles(case):
 
 # ---- unit 5: malformed encodings -----------------------------------------------------------------------------------
 
+SPECIAL_CHARS = " \t\n\r\x0b\x0c\x00\x7f\x85\xa0\u2003\u200b\ufeffxXgGzZ-_+.:\uff10\uff19\uff41\uff26\u0660\u0669\u0966\u00b2\u2167\u0301\U0001d7ce"
+
+
 def _edit_hex(draw, hx):
-    kind = draw(st.sampled_from(["upper", "one-upper", "short", "long", "odd", "space", "nl", "0x", "fullwidth", "g", "nbsp"]))
+    kind = draw(st.sampled_from(["upper", "one-upper", "short", "long", "odd", "space", "nl", "0x", "fullwidth", "g", "nbsp",
+                                 "nl-last", "sub-special", "sub-special", "pair-special"]))
     i = draw(st.integers(0, len(hx) - 1))
     if kind == "upper":
         r = hx.upper()
@@ -234,6 +258,14 @@ def _edit_hex(draw, hx):
         r = hx[:i] + chr(0xFF10 + int(hx[i], 16) % 10) + hx[i + 1:]
     elif kind == "g":
         r = hx[:i] + "g" + hx[i + 1:]
+    elif kind == "nl-last":
+        r = hx[:-1] + draw(st.sampled_from(["\n", "\r", " ", "\x00"]))
+    elif kind == "sub-special":
+        r = hx[:i] + draw(st.sampled_from(SPECIAL_CHARS)) + hx[i + 1:]
+    elif kind == "pair-special":
+        j = 2 * (i // 2)
+        ch = draw(st.sampled_from(SPECIAL_CHARS))
+        r = hx[:j] + ch + ch + hx[j + 2:]
     else:
         r = hx + "\u00a0"
     return kind, r
@@ -263,6 +295,14 @@ def check_malformed(case):
         if g.is_key(v):
             return {"nontrivial": False, "labels": ["valid-by-chance"]}
         f = cls.from_hex
+        # the key-encoding validator itself must reject it too (not only the conversion that follows it)
+        try:
+            ok = C.is_hex_key(v)
+        except Exception as e:
+            raise Violation("is_hex_key(%r) raised %s" % (v, type(e).__name__), bucket="malformed encoding: validator raises")
+        if ok and not (isinstance(v, str) and type(v) is not str):
+            raise Violation("is_hex_key accepts the malformed key encoding %r (%s)" % (v, case["kind"]),
+                            bucket="malformed encoding accepted")
     else:
         if type(v) is bytes and len(v) == 32:
             return {"nontrivial": False, "labels": ["valid-by-chance"]}
@@ -292,7 +332,7 @@ UNITS = [
         {"s1": seeds, "s2": st.one_of(seeds, st.sampled_from(SPECIAL_SEEDS)), "bit": st.integers(0, 255)}), quick=600, thorough=20000,
         essential=["same-seed", "different-seeds"], doc="reflexive, symmetric, false across seeds and across kinds"),
     Unit("keyfiles", check_keyfiles, strategy=lambda: st.fixed_dictionaries(
-        {"how": st.sampled_from(["library", "hand", "gen_keys"]), "seed": seeds}), quick=300, thorough=5000,
+        {"how": st.sampled_from(["library", "library", "hand", "gen_keys"]), "seed": seeds, "pre": st.integers(0, 3)}), quick=300, thorough=5000,
         doc="key files written by the library / by hand load back as equivalent keys"),
     Unit("malformed", check_malformed, strategy=_malformed, quick=1500, thorough=40000,
          doc="malformed key encodings are rejected with TypeError/ValueError by from_bytes/from_hex"),
